@@ -41,6 +41,9 @@ def streams(ctx):
 
 def gen_case(ctx, stream, idx):
     r = ctx.rng(stream, idx)
+    if stream == "core" and idx % 6 == 5:
+        return irgen.similar_ir(r, type_kinds=("int", "float", "str", "bool"), default_kinds=("int", "float", "str", "bool"),
+                                all_defaults=True, with_return=False)
     if stream == "core":
         return irgen.rand_ir(r, nparams=r.randint(1, 5), type_kinds=CORE_T, default_kinds=CORE_D, all_defaults=True,
                              with_return=False, doc_kinds=("plain", "plain", "punct"))
@@ -57,8 +60,13 @@ def gen_case(ctx, stream, idx):
 
 def one_hop(ir, fmt):
     src, back = hops.hop(ir, fmt)
-    back = {"name": ir["name"], "type": "static", "doc": back.get("doc") or "", "params": back["params"],
-            "returns": back.get("returns")}
+    carried = {"name": ir["name"], "type": "static", "doc": back.get("doc") or "", "params": back["params"],
+               "returns": back.get("returns")}
+    if "_internal" in back:
+        # what a parser remembers about its source (original docstring, body) travels with the interface to the next
+        # emitter, as it does when a caller hands a parser's result to an emitter
+        carried["_internal"] = back["_internal"]
+    back = carried
     return src, back
 
 
